@@ -61,11 +61,11 @@ type expect struct {
 func (o *histOracle) expectSotw(t string, names []string, nonce string, errMsg *string) expect {
 	h := o.get(t)
 	switch {
-	case errMsg != nil:
-		if h.exists {
-			h.lastErr = *errMsg
-		}
+	case errMsg != nil && h.exists:
+		h.lastErr = *errMsg
 		return expect{clause: "nack-silent"}
+	// a request with error_detail for a type that is NOT watched on this stream rejects a response of a previous
+	// stream (Envoy keeps a NACK it could not send): on this stream it is the first request of the type
 	case len(names) == 0 && namedType(t):
 		*h = hist{names: sets.New[string]()}
 		return expect{clause: "unsubscribe-silent"}
@@ -76,9 +76,18 @@ func (o *histOracle) expectSotw(t string, names []string, nonce string, errMsg *
 			o.get("EDS").warm = true
 		}
 		return expect{respond: true, full: true, clause: "first-request-or-reconnect-answered-in-full"}
+	case h.delivered == "":
+		// no response has reached the client since the watch was created (the answer had nothing to send, or the send
+		// failed): the nonce refers to a response that preceded the watch - the client retains it across an
+		// unsubscribe or a reconnect - and cannot be stale with respect to it: a new request
+		*h = hist{exists: true, names: sets.New(names...)}
+		if t == "CDS" && o.get("EDS").exists {
+			o.get("EDS").warm = true
+		}
+		return expect{respond: true, full: true, clause: "request-on-a-watch-nothing-was-sent-on-answered-in-full"}
 	case nonce != h.delivered:
-		// a nonce no response reached the client with: stale, or of a response whose send failed
-		return expect{clause: "stale-or-undelivered-nonce-silent"}
+		// a nonce older than the last response that reached the client: stale
+		return expect{clause: "stale-nonce-silent"}
 	}
 	added := sets.New(names...).Difference(h.names)
 	removed := h.names.Difference(sets.New(names...))
@@ -118,9 +127,8 @@ func (o *histOracle) expectDelta(t string, sub, unsub, init []string, nonce stri
 		h.lastErr = *errMsg
 	}
 	switch {
-	case !h.exists && isErr && !carries:
-		return expect{clause: "nack-silent"}
 	case !h.exists:
+		// also with error_detail (a NACK queued when the previous stream broke): the first request of the type
 		*h = hist{exists: true, names: subs.Copy(), wild: star || len(sub) == 0}
 		if managedType(t) && h.wild {
 			h.names = sets.New[string]()
@@ -129,7 +137,7 @@ func (o *histOracle) expectDelta(t string, sub, unsub, init []string, nonce stri
 	case isErr && !carries:
 		return expect{clause: "nack-silent"}
 	case nonce != "" && nonce != h.delivered && !carries:
-		return expect{clause: "stale-or-undelivered-nonce-silent"}
+		return expect{clause: "stale-nonce-silent"}
 	}
 	detached := isErr || (nonce != "" && nonce != h.delivered)
 	changed := false
